@@ -540,8 +540,27 @@ def check_function(ctx: Ctx, rule: str, modname: str, fname: str, spec: dict) ->
                 break
         return verdict, detail
 
+    def spells_out_lookup(r):
+        """`if k not in X: raise KeyError(...)` in front of `X[k]`: the request failed with a KeyError at that subscript anyway --
+        the rejection refuses nothing that was served (the subscript is evaluated whenever the path goes on under the same conditions)"""
+        if not (r.term[0] == "call" and r.term[1] == ("builtin", "KeyError")):
+            return False
+        cj = list(conjuncts(r.live))
+        for a in cj:
+            if a[0] == "cmp" and a[1] == "notin" and len(a) == 4:
+                rest = set(cj) - {a}
+                look = ("sub", a[3], a[2])
+                for e in s.events:
+                    if e.idx > r.idx and not e.in_handler and any(x == look for x in walk(e.term)) \
+                            and set(conjuncts(e.live)) - {("cmp", "in", a[2], a[3]), TRUE} <= rest:
+                        return True
+        return False
+
     n_dead = 0
     for r in raises:
+        if spells_out_lookup(r):
+            n_dead += 1
+            continue
         verdict, detail = verdict_of(r.live)
         if verdict == "dead":
             n_dead += 1
